@@ -83,7 +83,9 @@ func (c *compiler) write(bb *strings.Builder, i interface{}) {
 		}
 		bb.Write(unsafeGetBytes(t.Format(DefaultTimeFormat)))
 	case *time.Time:
-		c.write(bb, *t)
+		if t != nil {
+			c.write(bb, *t)
+		}
 	case interfaceable:
 		c.write(bb, t.Interface())
 	case string, ast.Printable, bool:
